@@ -55,6 +55,9 @@ def gen_case(rng, quick, i):
             "detectors": [{"kind": "field", "box": [[1, 3], [2, 4], [6, 8] if "pml" in zk else [3, 5]], "name": "det", "opts": {"exact_interpolation": bool(i % 2)}},
                           {"kind": "phasor", "box": [[2, 4], [1, 3], [5, 7] if "pml" in zk else [2, 4]], "name": "ph", "switch": {"start_time": 1}}],
             "mats": {"seed": rng.randint(0, 10**6), "ncomp": rng.choice([1, 3]), "pow2": False, "mu": False, "sigma_e": 1e-3 if lossy else 0}}
+    if i % 2 == 1:      # complex fields: Bloch boundaries with a non-zero wave vector on x / y (checkpoints must keep the imaginary parts)
+        spec["bt"].update({"min_x": "bloch", "max_x": "bloch", "min_y": "bloch", "max_y": "bloch"})
+        spec["kvec"] = [3.0e6, -2.0e6, 0.0]
     if i % 3 == 1 and zk[0] != "periodic":
         spec["sources"].append({"kind": "plane", "axis": 2, "pos": 5, "dir": "+", "pol": [1.0, 0.0, 0.0], "switch": {"start_time": 1, "end_time": T_ - 2}})
     ck = [T_ - 1] if lossy else sorted({0, rng.randint(1, T_ - 1)})
